@@ -14,14 +14,14 @@ PROP_MODULES = {
     'C10': ['obligations.queue_ops', 'obligations.e2_jobs'],
     'C01': ['obligations.e2_jobs', 'obligations.cache_ops', 'obligations.queue_ops'],
     'C02': ['obligations.e2_jobs', 'obligations.cache_ops'],
-    'C13': ['obligations.e2_jobs'],
+    'C13': ['obligations.e2_jobs', 'obligations.fanout_ops'],
     'C06': ['obligations.block_ops'],
     'C17': ['obligations.check_ops'],
     'C11': ['obligations.persist_ops'],
     'C12': ['obligations.persist_ops'],
     'C05': ['obligations.conc_ops', 'obligations.block_ops'],
     'C07': ['obligations.cache_ops', 'obligations.queue_ops'],
-    'C14': ['obligations.cache_ops', 'obligations.queue_ops'],
+    'C14': ['obligations.cache_ops', 'obligations.queue_ops', 'obligations.fanout_ops'],
     'C16': ['obligations.e2_jobs'],
 }
 for _p in ('C04', 'C08'):
